@@ -534,16 +534,17 @@ class RelativeJSONPointer:
         else:
             index = 0
 
-        # Pointer or '#'. Empty string is OK.
-        _pointer = match.group("POINTER").strip()
+        # Pointer or '#'. Empty string is OK. White space at the end of a
+        # pointer belongs to its last token.
+        _pointer = match.group("POINTER").lstrip()
         pointer = (
             JSONPointer(
                 _pointer,
                 unicode_escape=unicode_escape,
                 uri_decode=uri_decode,
             )
-            if _pointer != "#"
-            else _pointer
+            if _pointer.rstrip() != "#"
+            else "#"
         )
 
         return (origin, index, pointer)
